@@ -44,6 +44,9 @@ def _tok_at(tokens, kinds, pos):
     return "EOF", prev
 
 
+_HISTORY_REPORTED = []
+
+
 def judge_positive(item, text, tokens, out):
     """item: dict(toks, ev, start, ts, fv).  The text derives from the grammar under (start, ts, fv)."""
     start, ts, fv = item["start"], item["ts"], item["fv"]
@@ -108,6 +111,8 @@ def judge_positive(item, text, tokens, out):
             if not noloc and src is text:
                 n += reparse_spans(res, text, ts, fv, out, wit)
                 # trees are independent values: editing one in place (as inline visitors do) is invisible to the next parse
+                if _HISTORY_REPORTED:
+                    continue            # shared state already reported by this worker: scribbling on would only grow it
                 astproj.scribble(res, "<scribbled by an earlier caller>")
                 st2, res2 = try_parse(entry, text, ts, fv, False)
                 n += 1
@@ -117,6 +122,7 @@ def judge_positive(item, text, tokens, out):
                 else:
                     ev2, pl2, bad2 = astproj.project(res2)
                     if bad2 or ev2 != ev or pl2 != pl:
+                        _HISTORY_REPORTED.append(True)
                         out.setdefault(("C02", "parse/history/tree-depends-on-earlier-trees/%s" % (bad2[0] if bad2 else "differs")),
                                        ["a freshly parsed tree shows edits made to a previously returned tree (shared mutable state)", wit])
     return n
